@@ -128,9 +128,12 @@ def fill(claim, NA):
 		  "fzLoop_stops_at_increase (it stops exactly when adding the cheaper neighbouring position strictly increases the average cost), bisection_post (the reorder point "
 		  "returned for a given Q equalises the cost curve at r and r+Q within tol) and bisection_in_bracket, for any curve. Tie: r_q_poisson_exact and r_q_cost_poisson vs the exact "
 		  "model on the G/cdf tables the real code uses (r, Q exactly, costs 1e-9) + exhaustive integer window; normal-demand r_q_cost vs independent quadrature, r(Q) equalisation and "
-		  "minimisation over r, EIL / EOQ+SS / EOQB approximations vs their defining equations (SciPy-side labelled tests).",
-		  "Trusted: Lean kernel + 3 axioms; harness; SciPy (poisson pmf/cdf, norm, quad, fsolve) as black boxes. Open: global optimality of the search for unimodal G (fz_optimal) "
-		  "- currently local stopping certificate + exhaustive window per instance; normal-demand clauses are numerical (quad).")
+		  "minimisation over r, EIL / EOQ+SS / EOQB approximations vs their defining equations (SciPy-side labelled tests). GLOBAL OPTIMALITY (Props/C14Opt.lean): "
+		  "window_opt (for a unimodal G the window the search holds is the cheapest of ALL windows of its size), gamk_mono, cond_persists / after_stop (once the average cost rises it "
+		  "keeps rising), fzLoop_traj, fz_optimal: for every G non-increasing up to S and non-decreasing after, the returned pair minimises (K lambda + window sum)/Q over ALL integer r "
+		  "and all Q >= 1; tableFn_unimodal + fz_optimal_table turn the hypothesis into an executable check (tableUnimodalb) that the driver evaluates on the very G table of each instance.",
+		  "Trusted: Lean kernel + 3 axioms; harness; SciPy (poisson pmf/cdf, norm, quad, fsolve) as black boxes. That the Poisson newsvendor cost G is unimodal around S is checked "
+		  "per instance on the table (not proved for the closed form); outside the table G is extended by a large constant; normal-demand clauses are numerical (quad).")
 
 	claim('C12',
 		  "Theorems (Props/C12.lean): bellman (for every period and state the reported cost is attained at the reported order-up-to level y* in [x, x_max], no y >= x on the grid is "
